@@ -271,6 +271,8 @@ class FinamInterp(Interp):
             return isinstance(v, str) or (isinstance(v, Sym) and v.op in ("file", "fstr", "str"))
         if name == "datetime":
             return isinstance(v, Sym) and v.op in ("time",) or self.order.lookup(v) is not None
+        if name in ("tuple", "list", "dict", "set") and isinstance(v, (Obj, tuple, list, dict, set)):
+            return isinstance(v, {"tuple": tuple, "list": list, "dict": dict, "set": set}[name])  # (objects of repo classes are no containers)
         raise Undecided(f"isinstance({v!r}, {name})", node)
 
     def decide(self, cond, node):
